@@ -371,4 +371,281 @@ theorem rewrite_layout (f0 f1 q0 q1 t0 t1 t2 t3 c0 c1 c2 c3 o0 o1 : Byte) (rest 
   simp [rewrite, e1, e2, ho0, ho1, e3]
   omega
 
+/-! ### the receiver as a whole: track state current at unwrap time -/
+
+theorem or_and7f (y : Byte) : y.toNat < 128 → ((0 : Byte) ||| y) &&& 0x7F = y ∧ ((128 : Byte) ||| y) &&& 0x7F = y := by
+  revert y; apply forall_u8; decide
+
+theorem marker_pt_and7f (x y : Byte) (hy : y.toNat < 128) : ((x &&& 0x80) ||| y) &&& 0x7F = y := by
+  rw [and80_cases]
+  split
+  · exact (or_and7f y hy).2
+  · exact (or_and7f y hy).1
+
+theorem headerLength_ge (bf : Bs) (hl : Nat) (h : headerLength bf = some hl) : 12 ≤ hl := by
+  unfold headerLength at h
+  split at h
+  · cases h
+  · dsimp only at h
+    split at h
+    · split at h
+      · simp only [Option.some.injEq] at h; omega
+      · cases h
+    · simp only [Option.some.injEq] at h; omega
+
+theorem take_append_get (l X : Bs) (hl i : Nat) (h1 : i < hl) (h2 : i < l.length) :
+    (l.take hl ++ X)[i]? = l[i]? := by
+  rw [List.getElem?_append_left (by simp [List.length_take]; omega), List.getElem?_take, if_pos h1]
+
+theorem rewrite_stamp (bf : Bs) (n hl : Nat) (pt : Byte) (ssrc : Nat) (pkt : Bs) (h12 : 12 ≤ hl)
+    (h : rewrite bf n hl pt ssrc = some pkt) :
+    (∃ b1 : Byte, pkt[1]? = some ((b1 &&& 0x80) ||| pt)) ∧
+    pkt[8]? = some (b (ssrc / 16777216)) ∧ pkt[9]? = some (b (ssrc / 65536)) ∧
+    pkt[10]? = some (b (ssrc / 256)) ∧ pkt[11]? = some (b ssrc) := by
+  unfold rewrite at h
+  split at h
+  · cases h
+  · rename_i b1 hb1
+    simp only at h
+    split at h
+    · cases h
+    · rename_i o0 ho0
+      split at h
+      · cases h
+      · rename_i o1 ho1
+        split at h
+        · cases h
+        · rename_i hlen
+          simp only [List.length_set] at hlen
+          split at h
+          · rename_i hn
+            simp only [Option.some.injEq] at h
+            subst h
+            have hlen' : 12 ≤ bf.length := by omega
+            refine ⟨⟨b1, ?_⟩, ?_, ?_, ?_, ?_⟩
+            all_goals rw [take_append_get _ _ _ _ (by omega) (by simp only [List.length_set]; omega)]
+            all_goals simp [List.getElem?_set]
+            all_goals omega
+          · cases h
+
+theorem unwrap_stamp (bf : Bs) (n : Nat) (pt : Byte) (ssrc : Nat) (pkt : Bs) (a : Attrs)
+    (h : unwrap bf n pt ssrc = .delivered pkt a) :
+    (∃ b1 : Byte, pkt[1]? = some ((b1 &&& 0x80) ||| pt)) ∧
+    pkt[8]? = some (b (ssrc / 16777216)) ∧ pkt[9]? = some (b (ssrc / 65536)) ∧
+    pkt[10]? = some (b (ssrc / 256)) ∧ pkt[11]? = some (b ssrc) := by
+  unfold unwrap at h
+  split at h
+  · cases h
+  · split at h
+    · rename_i hl pad hhl hpad
+      split at h
+      · cases h
+      · split at h
+        · rename_i a' pkt' ha hr
+          simp only [Outcome.delivered.injEq] at h
+          obtain ⟨rfl, rfl⟩ := h
+          exact rewrite_stamp bf n hl pt ssrc _ (headerLength_ge bf hl hhl) hr
+        · cases h
+    · cases h
+
+theorem rtxItems_append (a c : List Obs) : rtxItems (a ++ c) = rtxItems a ++ rtxItems c := by
+  induction a with
+  | nil => rfl
+  | cons o rest ih => cases o <;> simp [rtxItems, ih]
+
+/-- what one event does to the track state, the channel and the ghost log -/
+theorem step_spec (known : Byte → Bool) (s s' : Recv) (e : Ev) (o : List Obs) (l : List Stamp)
+    (h : step known s e = some (s', o, l)) :
+    (∀ st ∈ l, st.pt = s.pt ∧ st.ssrc = s.ssrc ∧ st.carries) ∧
+    s.q ++ l.map (·.item) = rtxItems o ++ s'.q := by
+  cases e with
+  | feed i =>
+    simp only [step] at h
+    cases hu : unwrap i.buf i.n s.pt s.ssrc with
+    | panic => simp [hu] at h
+    | dropped =>
+      simp only [hu, Option.some.injEq, Prod.mk.injEq] at h
+      obtain ⟨rfl, rfl, rfl⟩ := h
+      simp [rtxItems]
+    | delivered pkt a =>
+      simp only [hu] at h
+      split at h
+      · simp only [Option.some.injEq, Prod.mk.injEq] at h
+        obtain ⟨rfl, rfl, rfl⟩ := h
+        refine ⟨?_, by simp [rtxItems]⟩
+        intro st hst
+        simp only [List.mem_singleton] at hst
+        subst hst
+        exact ⟨rfl, rfl, unwrap_stamp i.buf i.n s.pt s.ssrc pkt a hu⟩
+      · simp only [Option.some.injEq, Prod.mk.injEq] at h
+        obtain ⟨rfl, rfl, rfl⟩ := h
+        simp [rtxItems]
+  | read len =>
+    simp only [step] at h
+    split at h
+    · simp only [Option.some.injEq, Prod.mk.injEq] at h
+      obtain ⟨rfl, rfl, rfl⟩ := h
+      simp [rtxItems]
+    · split at h
+      · rename_i it rest hq
+        simp only [Option.some.injEq, Prod.mk.injEq] at h
+        obtain ⟨rfl, rfl, rfl⟩ := h
+        simp [rtxItems, hq]
+      · rename_i hq
+        split at h
+        · simp only [Option.some.injEq, Prod.mk.injEq] at h
+          obtain ⟨rfl, rfl, rfl⟩ := h
+          simp [rtxItems]
+        · split at h <;>
+          · simp only [Option.some.injEq, Prod.mk.injEq] at h
+            obtain ⟨rfl, rfl, rfl⟩ := h
+            simp [rtxItems, hq]
+  | primary pkt =>
+    simp only [step, Option.some.injEq, Prod.mk.injEq] at h
+    obtain ⟨rfl, rfl, rfl⟩ := h
+    simp [rtxItems]
+  | rebind ssrc =>
+    simp only [step] at h
+    split at h <;>
+    · simp only [Option.some.injEq, Prod.mk.injEq] at h
+      obtain ⟨rfl, rfl, rfl⟩ := h
+      simp [rtxItems]
+  | stop =>
+    simp only [step, Option.some.injEq, Prod.mk.injEq] at h
+    obtain ⟨rfl, rfl, rfl⟩ := h
+    simp [rtxItems]
+
+theorem run_spec (known : Byte → Bool) (evs : List Ev) : ∀ (s s' : Recv) (o : List Obs) (l : List Stamp),
+    run known s evs = some (s', o, l) →
+    (∀ st ∈ l, st.carries) ∧ s.q ++ l.map (·.item) = rtxItems o ++ s'.q := by
+  induction evs with
+  | nil =>
+    intro s s' o l h
+    simp only [run, Option.some.injEq, Prod.mk.injEq] at h
+    obtain ⟨rfl, rfl, rfl⟩ := h
+    simp [rtxItems]
+  | cons e es ih =>
+    intro s s' o l h
+    simp only [run] at h
+    cases h1 : step known s e with
+    | none => simp [h1] at h
+    | some r1 =>
+      obtain ⟨s1, o1, l1⟩ := r1
+      simp only [h1] at h
+      cases h2 : run known s1 es with
+      | none => simp [h2] at h
+      | some r2 =>
+        obtain ⟨s2, o2, l2⟩ := r2
+        simp only [h2, Option.some.injEq, Prod.mk.injEq] at h
+        obtain ⟨rfl, rfl, rfl⟩ := h
+        obtain ⟨a1, f1⟩ := step_spec known s s1 e o1 l1 h1
+        obtain ⟨a2, f2⟩ := ih s1 s2 o2 l2 h2
+        refine ⟨?_, ?_⟩
+        · intro st hst
+          rcases List.mem_append.mp hst with h | h
+          · exact (a1 st h).2.2
+          · exact a2 st h
+        · rw [List.map_append, ← List.append_assoc, f1, List.append_assoc, f2, rtxItems_append, List.append_assoc]
+
+theorem run_append (known : Byte → Bool) (a : List Ev) : ∀ (s : Recv) (c : List Ev),
+    run known s (a ++ c) =
+      match run known s a with
+      | none => none
+      | some (s1, o1, l1) =>
+        match run known s1 c with
+        | none => none
+        | some (s2, o2, l2) => some (s2, o1 ++ o2, l1 ++ l2) := by
+  induction a with
+  | nil =>
+    intro s c
+    simp only [List.nil_append, run]
+    cases run known s c with
+    | none => rfl
+    | some r => obtain ⟨s2, o2, l2⟩ := r; simp
+  | cons e es ih =>
+    intro s c
+    simp only [List.cons_append, run]
+    cases step known s e with
+    | none => rfl
+    | some r1 =>
+      obtain ⟨s1, o1, l1⟩ := r1
+      simp only [ih s1 c]
+      cases run known s1 es with
+      | none => rfl
+      | some r2 =>
+        obtain ⟨s2, o2, l2⟩ := r2
+        simp only []
+        cases run known s2 c with
+        | none => rfl
+        | some r3 => obtain ⟨s3, o3, l3⟩ := r3; simp [List.append_assoc]
+
+/-- wherever a repair read sits in a history: the packet it queues carries the payload type and SSRC
+    the track has after everything that happened before it -/
+theorem run_feed_current (known : Byte → Bool) (pre post : List Ev) (i : Input) (s s' : Recv) (o : List Obs)
+    (l : List Stamp) (h : run known s (pre ++ .feed i :: post) = some (s', o, l)) :
+    ∃ s1 o1 l1 s2 l2, run known s pre = some (s1, o1, l1) ∧ step known s1 (.feed i) = some (s2, [], l2) ∧
+      (∀ st ∈ l2, st.pt = s1.pt ∧ st.ssrc = s1.ssrc ∧ st.carries ∧ st ∈ l) := by
+  rw [run_append] at h
+  cases h1 : run known s pre with
+  | none => simp [h1] at h
+  | some r1 =>
+    obtain ⟨s1, o1, l1⟩ := r1
+    simp only [h1, run] at h
+    cases h2 : step known s1 (.feed i) with
+    | none => simp [h2] at h
+    | some r2 =>
+      obtain ⟨s2, o2, l2⟩ := r2
+      simp only [h2] at h
+      cases h3 : run known s2 post with
+      | none => simp [h3] at h
+      | some r3 =>
+        obtain ⟨s3, o3, l3⟩ := r3
+        simp only [h3, Option.some.injEq, Prod.mk.injEq] at h
+        obtain ⟨rfl, rfl, rfl⟩ := h
+        have ho2 : o2 = [] := by
+          simp only [step] at h2
+          split at h2
+          · cases h2
+          · simp only [Option.some.injEq, Prod.mk.injEq] at h2; exact h2.2.1.symm
+          · split at h2 <;> (simp only [Option.some.injEq, Prod.mk.injEq] at h2; exact h2.2.1.symm)
+        subst ho2
+        refine ⟨s1, o1, l1, s2, l2, rfl, h2, ?_⟩
+        intro st hst
+        obtain ⟨a1, a2, a3⟩ := (step_spec known s1 s2 (.feed i) [] l2 h2).1 st hst
+        exact ⟨a1, a2, a3, by simp [hst]⟩
+
+theorem step_some (known : Byte → Bool) (s : Recv) (e : Ev)
+    (h : ∀ i, e = .feed i → 76 ≤ i.buf.length ∧ i.n ≤ i.buf.length) : ∃ r, step known s e = some r := by
+  cases e with
+  | feed i =>
+    obtain ⟨h1, h2⟩ := h i rfl
+    have hnp := unwrap_no_panic i.buf i.n s.pt s.ssrc h1 h2
+    simp only [step]
+    cases hu : unwrap i.buf i.n s.pt s.ssrc with
+    | panic => exact absurd hu hnp
+    | dropped => exact ⟨_, rfl⟩
+    | delivered pkt a => simp only []; split <;> exact ⟨_, rfl⟩
+  | read len =>
+    simp only [step]
+    split
+    · exact ⟨_, rfl⟩
+    · split
+      · exact ⟨_, rfl⟩
+      · split
+        · exact ⟨_, rfl⟩
+        · split <;> exact ⟨_, rfl⟩
+  | primary pkt => exact ⟨_, rfl⟩
+  | rebind ssrc => simp only [step]; split <;> exact ⟨_, rfl⟩
+  | stop => exact ⟨_, rfl⟩
+
+theorem run_some (known : Byte → Bool) (evs : List Ev) : ∀ (s : Recv),
+    (∀ i, Ev.feed i ∈ evs → 76 ≤ i.buf.length ∧ i.n ≤ i.buf.length) → ∃ r, run known s evs = some r := by
+  induction evs with
+  | nil => intro s _; exact ⟨_, rfl⟩
+  | cons e es ih =>
+    intro s h
+    obtain ⟨⟨s1, o1, l1⟩, h1⟩ := step_some known s e (fun i hi => h i (by simp [hi]))
+    obtain ⟨⟨s2, o2, l2⟩, h2⟩ := ih s1 (fun i hi => h i (by simp [hi]))
+    exact ⟨(s2, o1 ++ o2, l1 ++ l2), by simp only [run, h1, h2]⟩
+
 end WebrtcVerif.Rtx
